@@ -200,8 +200,10 @@ Definition eff_kind (target : bytes) (okind : N) : N :=
   if is_empty (take_authority target) then okind
   else if okind =? 1 then 2 else if okind =? 4 then 3 else okind.
 
-(** one request: the answer as the harness reports it and the new state *)
-Definition step_request (c : pcfg) (st : pstate) (m target : bytes) (okind0 : N) : xval * pstate :=
+(** one request: the answer as the harness reports it ([fmt]: from the response, the Prepare log and the
+    path strings handed to the operating system) and the new state *)
+Definition step_request_with (fmt : cresp -> list bytes -> list bytes -> xval)
+    (c : pcfg) (st : pstate) (m target : bytes) (okind0 : N) : xval * pstate :=
   match target_uri target with
   | None => (XL [XN 96], st)
   | Some (p, q) =>
@@ -214,9 +216,8 @@ Definition step_request (c : pcfg) (st : pstate) (m target : bytes) (okind0 : N)
       let '(r, ev, fc', os) := serve_st h (pc_fs c) (pc_fcache c) (snd st) (meth_of m) ov (option_map abstract hit) p in
       if r_status r =? 0 then (XL [XN 2], st) else
       let log := log_of c ev in
-      let opens := opens_of c os in
       match r_from_cache r, hit with
-      | true, Some cr => (x_cresp cr log opens, (fst st, fc'))
+      | true, Some cr => (fmt cr log os, (fst st, fc'))
       | _, _ =>
           let cr :=
             match find_run ev with
@@ -233,9 +234,26 @@ Definition step_request (c : pcfg) (st : pstate) (m target : bytes) (okind0 : N)
             end in
           let store := pc_cache c && c_store cr && status_cacheable (c_status cr) &&
                        match meth_of m with MOther => false | _ => true end in
-          (x_cresp cr log opens, (if store then ((if c_qm cr then kpq else kp), cr) :: fst st else fst st, fc'))
+          (fmt cr log os, (if store then ((if c_qm cr then kpq else kp), cr) :: fst st else fst st, fc'))
       end
   end.
+
+(** status, body, Prepare log, the objects opened (what inotify reports) *)
+Definition fmt_std (c : pcfg) (cr : cresp) (log os : list bytes) : xval := x_cresp cr log (opens_of c os).
+Definition step_request (c : pcfg) : pstate -> bytes -> bytes -> N -> xval * pstate := step_request_with (fmt_std c) c.
+
+(** status and the distinct path strings handed to the operating system (what a system-call trace of the
+    file-related calls shows: open and stat, successful or not), relative to the run directory *)
+Definition strip_run (f : bytes) : bytes :=
+  if starts_with (run_dir ++ [c_slash]) f then skipn (length run_dir + 1) f else f.
+Fixpoint dedup (seen l : list bytes) : list bytes :=
+  match l with
+  | [] => []
+  | a :: r => if existsb (beq a) seen then dedup seen r else a :: dedup (a :: seen) r
+  end.
+(** a path string with a NUL byte never reaches a system call: [std::fs] refuses it (CString) *)
+Definition fmt_sys (cr : cresp) (log os : list bytes) : xval :=
+  XL [XN (c_status cr); x_list XB (dedup [] (map strip_run (filter (fun f => negb (mem_byte 0 f)) os)))].
 
 (** a history is made of requests and of "alias" steps that copy the cache entry stored under the
     [Path] key of one path to the [Path] key of another (any cache content: theorem 2b quantifies
@@ -404,10 +422,28 @@ Definition run_pipe_spec_h2 (x : xval) : xval :=
   | None => bad_input
   end.
 
+(** [pathsanpipe.sys]: the in-process history under a system-call trace *)
+Definition step_op_sys (c : pcfg) (st : pstate) (o : op) : xval * pstate :=
+  match o with
+  | OReq m t k => step_request_with fmt_sys c st m t k
+  | OAlias _ _ => step_op c st o
+  end.
+Fixpoint run_history_sys (c : pcfg) (st : pstate) (ops : list op) : list xval :=
+  match ops with
+  | [] => []
+  | o :: r => let '(out, st') := step_op_sys c st o in out :: run_history_sys c st' r
+  end.
+Definition run_pipe_sys (x : xval) : xval :=
+  match decode_scenario x with
+  | Some (c, reqs) => XL (run_history_sys c empty_state reqs)
+  | None => bad_input
+  end.
+
 Definition pathsanpipe_table : list (bytes * (xval -> xval)) :=
   [ (B "pathsanpipe.run", run_pipe);
     (B "pathsanpipe.spec", run_pipe_spec);
     (B "pathsanpipe.wire", run_pipe_wire);
     (B "pathsanpipe.wire_spec", run_pipe_spec_wire);
     (B "pathsanpipe.h2", run_pipe_h2);
-    (B "pathsanpipe.h2_spec", run_pipe_spec_h2) ].
+    (B "pathsanpipe.h2_spec", run_pipe_spec_h2);
+    (B "pathsanpipe.sys", run_pipe_sys) ].
